@@ -20,6 +20,32 @@ CLAIMED = {
    design="5 / C17", technique="Lean 4 theorems over a transcribed filter model + differential correspondence"),
 }
 
+CLAIMED.update({
+ "C03": dict(
+   text="Theorems (Props/C03.lean) about Ctl.step/Ctl.run, the model of the main loop's control skeleton, for every oracle stream of search/poll outcomes: budget_inv, total_calls_le, "
+        "poll_iters_le, no_idle_iteration, terminates (explicit bound (nTry+1)(maxIter+budget)+1 by a lexicographic ranking function), msg_sound, fc_mono; hypotheses on option defaults re-proved "
+        "from the regenerated Generated/Defaults.lean. Correspondence: every loop iteration of traced real runs is replayed through Ctl.step (counters, mesh exponents, termination, message compared); "
+        "budget/count/message/idle predicates evaluated on the observed runs. Termination of the implementation additionally needs each oracle call to return (outside the model).",
+   design="5 / C03", technique="Lean 4 termination/invariant proofs over a loop-control model + trace-refinement correspondence"),
+ "C13": dict(
+   text="Theorems (Props/C13.lean) about Ctl.mstep: poll_success_doubles, poll_failure_halves_or_quarters (exact quartering condition), msi_changes_only_in_poll, running_best_good_iff, "
+        "msi_le_cap_and_ssi_le_msi (invariant over all reachable states), mesh_le_one, search_mesh_le_mesh, tolmesh_msg_sound; defaults hypotheses (multiplier 2, cap 0, ...) re-proved from the regenerated option values. "
+        "Correspondence: mesh exponents after every poll and at every loop iteration of traced runs vs the model; the update rule evaluated on the observed per-evaluation improvements.",
+   design="5 / C13", technique="Lean 4 invariant proofs over the mesh-update model + trace-refinement correspondence"),
+ "C12": dict(
+   text="Theorems (Props/C12.lean) about Log.record/call/add, the FunctionLogger state machine, for all operation sequences: record_cases (exhaustive case analysis), record_coords and runOps_coords_prefix "
+        "(records appended in call order, coordinates never altered), record_frame (an operation at x changes no record at another point), norecord_changes_only_counts, value_exact, mergeRow_ok "
+        "(precision-weighted mean with combined precision, by induction over the observations), merged_value_within_range, merge_hits_own_record, call_fc, call_error_kind. Correspondence: random operation "
+        "sequences (repeats, partial coincidences, cache sizes 1-4, noise modes, transformer, add, invalid values) on the real FunctionLogger with the full state compared after every operation; the property's clauses "
+        "are evaluated on the implementation's states against the abstract log kept by the harness.",
+   design="5 / C12", technique="Lean 4 state-machine invariants + differential operation sequences"),
+ "C09": dict(
+   text="PARTIAL. Execution of valid problems in every mode (trace pool + generators forcing the rare paths the property names: all ES candidates infeasible, repeats under specified noise, NaN GP prediction at the incumbent, "
+        "budgets at the edge of the initial design, degenerate targets) - any exception escaping optimize() is a failing input; definedness theorems for the modelled mechanisms in Props/C09.lean. "
+        "No model can prove absence of internal errors in all of pybads' NumPy code; the unmodelled part is covered only as far as runs are executed.",
+   design="5 / C09", technique="Lean 4 definedness model of named rare paths + forced-path execution (partial)"),
+})
+
 NA = {
  "C06": "population-level statistical guarantee about floating-point GP regression and random ES sampling; no executable Lean model expresses it (DESIGN.md section 6); its per-run clause is proved and checked under C04",
 }
